@@ -180,6 +180,47 @@ pub fn run(ctx: &Ctx) -> Report {
         rep.class_n("searches-compared-across-4-processes", b.len() as u64);
     }
     rep.merge(merged);
+    // the same searches through the real binary in three separate engine processes
+    // (fresh process = fresh cache): bestmove and the last info line's nodes must agree
+    {
+        use super::uciproc::{Engine, Stream};
+        let corp = corpus::load(&ctx.verif);
+        let list: Vec<(String, u8)> = work_list(ctx, &corp).into_iter().filter(|x| x.1 <= 4).take(ctx.tier.pick(12, 60)).collect();
+        let mut tables: Vec<Vec<(String, String)>> = vec![];
+        for _proc in 0..3 {
+            let mut t = vec![];
+            for (fen, d) in &list {
+                // one engine process per search, so every search starts from an empty cache
+                let Ok(mut e) = Engine::spawn(&ctx.engine, &[]) else { continue };
+                e.send(&format!("position fen {fen}"));
+                e.send(&format!("go depth {d}"));
+                let best = e.wait_for(Duration::from_secs(60), |ev| (ev.stream == Stream::Out && ev.line.starts_with("bestmove")) || ev.eof);
+                let nodes = e.stdout_lines().iter().rev().find(|l| l.line.starts_with("info")).and_then(|l| {
+                    let toks: Vec<&str> = l.line.split_whitespace().collect();
+                    toks.iter().position(|t| *t == "nodes").and_then(|i| toks.get(i + 1)).map(|s| s.to_string())
+                });
+                t.push((best.map(|b| b.line).unwrap_or_default(), nodes.unwrap_or_default()));
+                e.send("quit");
+                let _ = e.wait_exit(Duration::from_secs(2));
+                rep.eval(1);
+            }
+            tables.push(t);
+        }
+        for k in 1..tables.len() {
+            for (i, (a, b)) in tables[0].iter().zip(tables[k].iter()).enumerate() {
+                if a != b {
+                    rep.violation(Violation::new(
+                        "across-processes",
+                        "across-processes/uci-differs",
+                        format!("'position fen {}' + 'go depth {}' answered {:?} in one engine process and {:?} in another", list[i].0, list[i].1, a, b),
+                        json!({"fen": list[i].0, "depth": list[i].1}),
+                    ));
+                    break;
+                }
+            }
+        }
+        rep.class_n("uci-searches-compared-across-3-engine-processes", list.len() as u64);
+    }
     // bench totals
     let mut totals = vec![];
     for c in benches {
